@@ -120,6 +120,11 @@ PROPS = {
         corr=["corr.arb", "corr.const"], oracle=["oracle.C20"],
         aggregate="arb_reachable"),
     "C19": dict(
-        runs=lambda t: [catalogue(t, "enc,dec", values=(16, 120), nbytes=(150, 1500), exhaustive=(1, 1), tag="coll")],
-        corr=CORR_ENC + CORR_DEC, oracle=["oracle.C19"]),
+        # every catalogue type that contains a map or a set anywhere (tag coll): the collection must
+        # encode as its entry list, and round-trip, in every context (nested, after other fields,
+        # appended to a non-empty buffer), so the generic wire-format / round-trip / append oracles
+        # count for this property on these types
+        runs=lambda t: [catalogue(t, "enc,dec,app", values=(16, 120), nbytes=(150, 1500), exhaustive=(1, 1), tag="coll")],
+        corr=CORR_ENC + CORR_DEC + ["corr.append", "corr.as_bytes"],
+        oracle=["oracle.C19", "oracle.C03", "oracle.C01", "oracle.C10"]),
 }
